@@ -689,6 +689,24 @@ Section StmtCases.
     cbn [filter]. destruct (f kw); [cbn [map]; constructor; [assumption|apply IH; assumption]|apply IH; assumption].
   Qed.
 
+  Lemma okE_class_create p name bases' kws' : forallb core bases' = true -> okL (map snd kws') ->
+    okE (class_create p name bases' kws').
+  Proof.
+    intros Hbs Hks. unfold class_create.
+    assert (Hb : okE (ETuple bases')) by (split; [cbn [core]; exact Hbs|reflexivity]).
+    destruct (existsb is_meta_kw kws').
+    - apply okE_callk; [|constructor; [exact Hb|constructor]|exact Hks].
+      apply okE_lambda; [|cbn; lia|reflexivity|constructor|constructor].
+      apply okE_callk.
+      + apply okE_call; [apply okE_attr; apply okE_name|]. constructor; [apply okE_cstr|constructor].
+      + constructor; [apply okE_cstr|]. constructor; [apply okE_name|].
+        constructor; [apply okE_edict; [reflexivity|constructor|constructor]|constructor].
+      + cbn [map snd]. constructor; [apply okE_name|constructor].
+    - apply okE_callk; [apply okE_name| |exact Hks].
+      constructor; [apply okE_cstr|]. constructor; [exact Hb|].
+      constructor; [apply okE_edict; [reflexivity|constructor|constructor]|constructor].
+  Qed.
+
   Lemma S_classdef name ln bases kws b decs : Forall (S cfg) b -> S cfg (SClassDef name ln bases kws b decs).
   Proof.
     intros Hb c p es Hc H. cbn [stmt_ok] in Hc. apply andb_prop in Hc as [Hc Cb]. apply andb_prop in Hc as [Hc Cd].
@@ -701,13 +719,7 @@ Section StmtCases.
     pose proof (rmap_kws_ok _ _ _ Ck E1) as Hks.
     pose proof (okE_get_load_name _ _ _ _ _ E3) as Hld.
     constructor.
-    { refine (okE_get_assign _ _ _ _ _ E2). apply okE_callk.
-      - destruct (rev (filter _ l1)) as [|kw r] eqn:Er; [apply okE_name|].
-        match type of Er with rev ?x = _ => assert (Hin : List.In kw x) by (apply in_rev; rewrite Er; left; reflexivity) end.
-        apply filter_In in Hin as [Hin _]. unfold okL in Hks. rewrite Forall_forall in Hks. apply Hks. apply in_map. exact Hin.
-      - constructor; [apply okE_cstr|]. constructor; [split; [cbn [core]; exact Hbs|reflexivity]|].
-        constructor; [apply okE_edict; [reflexivity|constructor|constructor]|constructor].
-      - apply okL_filter_snd. exact Hks. }
+    { refine (okE_get_assign _ _ _ _ _ E2). apply okE_class_create; assumption. }
     constructor.
     { apply okE_named. apply okE_lambda0. apply okE_subscript_plain; [|apply okE_minus1|discriminate]. apply okE_elist.
       constructor; [apply okE_named; exact Hld|]. constructor; [apply okE_named; apply okE_edict; [reflexivity|constructor|constructor]|].
